@@ -77,6 +77,10 @@ def cases(tier, seed):
                         yield {'cls': name, 'maxlen': ml, 'dslen': n, 'pc': 7, 'resend': n2}
                         # ... while the provider thread has not yet consumed the first one (it goes out as it was sent)
                         yield {'cls': name, 'maxlen': ml, 'dslen': n, 'pc': 7, 'resend': n2, 'lazy': True}
+    # 3c. no limit in force (maximum PDU length 0): one fragment per stream, whatever the source
+    for name in ('CStoreRQMessage', 'CFindRSPMessage', 'NActionRQMessage'):
+        for n in (0, 1, 2, 255, 256, 257, 1000, 70000):
+            yield {'cls': name, 'maxlen': 0, 'dslen': n, 'pc': 9}
     # 4. context ids
     for pc in range(1, 256, 2):
         for ml, n in ((7, 3), (20, 29), (16384, 100)):
@@ -167,7 +171,10 @@ def run_case(case):
         for p in pdus:
             if len(p.data_value_items) != 1:
                 viol.append((sig + ':pdv-count', '%d PDVs in one P-DATA-TF (%s)' % (len(p.data_value_items), where)))
-        over = [f[3] for f in flags if f[3] > ml]
+        over = [f[3] for f in flags if f[3] > ml] if ml else []
+        if ml == 0 and (ncmd_ := sum(1 for h in hdrs if h in (1, 3))) + sum(1 for h in hdrs if h in (0, 2)) != 1 + (1 if dslen_eff else 0):
+            viol.append((sig + ':unlimited-fragments', 'no limit in force: %d fragments %r for a command set and %s (%s)' % (
+                len(hdrs), hdrs[:6], 'a data set' if dslen_eff else 'no data set', where)))
         if over:
             viol.append((sig + ':too-long', 'P-DATA-TF with pdu_length %d > maximum %d (%s)' % (max(over), ml, where)))
         if any(f[0] != pc for f in flags):
@@ -196,7 +203,7 @@ def run_case(case):
                 if t['pdu'] != 4 or [(x['id'], x['data']) for x in t['pdvs']] != [(i.context_id, i.data_value) for i in p.data_value_items]:
                     viol.append((sig + ':wire', 'encoded fragment does not parse back to its PDV (%s)' % where))
                     break
-                if len(e) - 6 > ml:
+                if ml and len(e) - 6 > ml:
                     viol.append((sig + ':too-long-wire', 'encoded P-DATA-TF has %d bytes after the header > %d (%s)' % (len(e) - 6, ml, where)))
                     break
             except ref_pdu.RefError as exc:
